@@ -4,6 +4,7 @@ open AgdbSearch
 #print axioms C16_stream_slice_elements
 #print axioms C16_slice_spec
 #print axioms C16_sorted_slice
+#print axioms C16_search_slice
 #print axioms C16_no_failure
 #print axioms C16_order
 #print axioms C16_order_lex
